@@ -1,49 +1,178 @@
 import Taskpool.Model.Control
+import Taskpool.Model.Control.Session
+import Taskpool.Model.Control.Server
 open Taskpool.Control
 
+/-! Line-protocol driver of the control model (`cdriver`): exactly one output line per input line.
+All free text is hex-encoded UTF-8, so a field never contains a blank. -/
+
+def hexDigit (n : Nat) : Char := if n < 10 then Char.ofNat (48 + n) else Char.ofNat (87 + n)
+
+def hexOfString (s : String) : String :=
+  String.ofList (s.toUTF8.toList.flatMap fun b => [hexDigit (b.toNat / 16), hexDigit (b.toNat % 16)])
+
+def hexOf (s : Str) : String := hexOfString (String.ofList s)
+
+def hexVal (c : Char) : Nat :=
+  if c.isDigit then c.toNat - 48 else if 'a' ≤ c ∧ c ≤ 'f' then c.toNat - 87 else 0
+
+def bytesOfHex : List Char → List UInt8
+  | a :: b :: rest => UInt8.ofNat (hexVal a * 16 + hexVal b) :: bytesOfHex rest
+  | _ => []
+
+def unhex (h : String) : Str :=
+  match String.fromUTF8? (ByteArray.mk (bytesOfHex h.toList).toArray) with
+  | some s => s.toList
+  | none => []
+
 def parseConv : String → Conv
-  | "int" => .int | "str" => .str | "float" => .float | "literal" => .literal | _ => .dotted
+  | "int" => .int | "float" => .float | "literal" => .literal | "dotted" => .dotted | "bool" => .bool | _ => .str
 def parseKind : String → PKind
   | "pos" => .positional | "var" => .varPositional | "flag" => .flag | _ => .optional
+def parsePass : String → Pass
+  | "position" => .byPosition | "star" => .byStar | _ => .byKeyword
+def parseMKind : String → MKind
+  | "function" => .function | "propro" => .propRO | "proprw" => .propRW | _ => .other
 
-partial def showVal : Val → String
-  | .int i => s!"i:{i}" | .str s => s!"s:{s}" | .raw s => s!"r:{s}" | .bool b => if b then "b:1" else "b:0"
-  | .default r => s!"d:{r}" | .list l => "[" ++ ",".intercalate (l.map showVal) ++ "]"
+def showConv : Conv → String
+  | .int => "int" | .str => "str" | .float => "float" | .literal => "literal" | .dotted => "dotted" | .bool => "bool"
 
-def showParsed : Parsed → String
-  | .call m args => s!"call {m} " ++ ";".intercalate (args.map fun a => a.1 ++ "=" ++ showVal a.2)
-  | .get m => s!"get {m}" | .set m v => s!"set {m} " ++ showVal v
-  | .help => "help" | .error => "error" | .outside => "outside"
+def decodeTok (s : String) : Tok :=
+  match s.splitOn ":" with
+  | ["w", h, i, bits] =>
+    let b := bits.toList
+    .word { text := unhex h, int? := if i == "-" then none else i.toInt?,
+            floatOk := b.getD 0 '0' == '1', litOk := b.getD 1 '0' == '1', dotOk := b.getD 2 '0' == '1' }
+  | ["s", h] => match unhex h with
+    | [c] => .short c
+    | _ => .other
+  | ["l", h] => .long (unhex h)
+  | _ => .other
 
-/-- table lines: `cmd <member> method|propro|proprw [conv]`, `param <name> <kind> <conv> <default|->`; then `parse tok...` -/
-partial def loop (h out : IO.FS.Stream) (t : Table) : IO Unit := do
+def showAtom : Atom → String
+  | .int i => s!"i:{i}" | .str s => "s:" ++ hexOf s | .raw s => "r:" ++ hexOf s | .bool b => if b then "b:1" else "b:0"
+
+def showVal : ArgVal → String
+  | .one a => showAtom a
+  | .many l => "[" ++ ",".intercalate (l.map showAtom) ++ "]"
+  | .flag b => if b then "f:1" else "f:0"
+  | .dflt => "d"
+
+def showNamed (a : Str × ArgVal) : String := hexOf a.1 ++ "=" ++ showVal a.2
+
+def showErr : ErrKind → String
+  | .unknownCommand => "unknown-command" | .badValue => "bad-value" | .needsValue => "needs-value"
+  | .missing => "missing" | .unrecognized => "unrecognized"
+
+def paramsOf (ms : List Member) (m : Str) : List Param :=
+  match ms.find? (fun x => x.name == m) with
+  | some x => x.params
+  | none => []
+
+def showVerdict (ms : List Member) : Option Verdict → String
+  | none => "outside"
+  | some (.help none) => "help -"
+  | some (.help (some m)) => "help " ++ hexOf m
+  | some (.error k) => "error " ++ showErr k
+  | some (.act (.get m)) => "get " ++ hexOf m
+  | some (.act (.set m v)) => "set " ++ hexOf m ++ " " ++ showAtom v
+  | some (.act (.call m args)) =>
+    let inv := dispatch (paramsOf ms m) args
+    "call " ++ hexOf m ++ " " ++ ";".intercalate (args.map showNamed)
+      ++ " # pos=" ++ ",".intercalate (inv.pos.map showVal)
+      ++ " star=" ++ ",".intercalate (inv.star.map showAtom)
+      ++ " kw=" ++ ";".intercalate (inv.kw.map showNamed)
+
+def showOptChar : Option Char → String
+  | some c => hexOfString c.toString
+  | none => "-"
+
+/-- the model's argparse spec of one command: per parameter `name:kind:short:long:conv` -/
+def showSpec (m : Member) : String :=
+  let fl := assignFlags m.params []
+  " ".intercalate (fl.map fun pf =>
+    let p := pf.1
+    let k := match p.kind with | .positional => "pos" | .varPositional => "var" | .optional => "opt" | .flag => "flag"
+    hexOf p.name ++ ":" ++ k ++ ":" ++ showOptChar pf.2 ++ ":" ++ (if p.isOpt then hexOf (dash p.name) else "-")
+      ++ ":" ++ showConv p.conv)
+
+def bit (b : Bool) : String := if b then "1" else "0"
+
+structure DState where
+  ms    : List Member := []
+  world : World Unit := { pool := (), sess := fun _ => readySess [] }
+  srv   : Srv := Srv.start false
+
+def placeholder : Str := ['<', 'm', 's', 'g', '>']
+
+/-- sessions in the driver: every action is left pending and its outcome is supplied by `sdone` -/
+def drvCfg (ms : List Member) : Cfg Unit :=
+  { table := commandTable ms,
+    rt := { message := fun _ => placeholder, beyond := fun _ => .error .unrecognized },
+    sem := { invoke := fun _ p => (p, .pending), complete := fun _ p => p, env := fun _ p => p },
+    name := [] }
+
+def showSess (before after : Sess) : String :=
+  let new := after.replies.drop before.replies.length
+  "replies=" ++ ",".intercalate (new.map hexOf) ++ " waiting=" ++ bit after.waiting.isSome ++ " ended=" ++ bit after.ended
+    ++ " inbox=" ++ toString after.inbox.length ++ " buf=" ++ toString after.buf.length
+
+def showSrv (s : Srv) : String :=
+  s!"listening={bit s.listening} stop={bit s.stopRequested} done={bit s.serveDone} file={bit s.socketFile} open={(s.conns.filter id).length} conns={s.conns.length} commands={s.commands}"
+
+def addParam (ms : List Member) (p : Param) : List Member :=
+  match ms.reverse with
+  | m :: rest => ({ m with params := m.params ++ [p] } :: rest).reverse
+  | [] => []
+
+def handleLine (d : DState) (line : String) : DState × String :=
+  let toks := line.splitOn " "
+  match toks with
+  | ["table"] => ({ d with ms := [] }, "ok")
+  | ["member", n, k] => ({ d with ms := d.ms ++ [{ name := unhex n, kind := parseMKind k, params := [] }] }, "ok")
+  | ["param", n, k, ps, c] =>
+    ({ d with ms := addParam d.ms { name := unhex n, kind := parseKind k, pass := parsePass ps, conv := parseConv c } }, "ok")
+  | ["wf"] => (d, s!"wf={bit (wellFormed d.ms)} build={bit (buildOk (commandTable d.ms))}")
+  | ["names"] => (d, " ".intercalate ((commandTable d.ms).map fun c => hexOf c.name))
+  | ["spec", m] =>
+    match d.ms.find? (fun x => x.name == unhex m) with
+    | some x => (d, showSpec x)
+    | none => (d, "?")
+  | "parse" :: rest =>
+    let tk := (rest.filter (· ≠ "")).map decodeTok
+    (d, showVerdict d.ms (parseLine (commandTable d.ms) tk))
+  | ["sreset"] => ({ d with world := { pool := (), sess := fun _ => readySess [] } }, "ok")
+  | "sline" :: i :: rest =>
+    let i := i.toNat!
+    let tk := (rest.filter (· ≠ "")).map decodeTok
+    let w := step (drvCfg d.ms) d.world (.line i (some tk))
+    ({ d with world := w }, showSess (d.world.sess i) (w.sess i))
+  | ["sblank", i] =>
+    let i := i.toNat!
+    let w := step (drvCfg d.ms) d.world (.line i none)
+    ({ d with world := w }, showSess (d.world.sess i) (w.sess i))
+  | ["sdone", i, k, h] =>
+    let i := i.toNat!
+    let o : Outcome := match k with | "none" => .none | "value" => .value (unhex h) | _ => .raised (unhex h)
+    let w := step (drvCfg d.ms) d.world (.done i o)
+    ({ d with world := w }, showSess (d.world.sess i) (w.sess i))
+  | ["vstart", k] => let s := Srv.start (k == "unix"); ({ d with srv := s }, showSrv s)
+  | ["vin", "connect"] => let s := d.srv.step .connect; ({ d with srv := s }, s!"accepted={bit d.srv.accepts} " ++ showSrv s)
+  | ["vin", "line", i] => let s := d.srv.step (.line i.toNat!); ({ d with srv := s }, s!"answered={bit (d.srv.answers i.toNat!)} " ++ showSrv s)
+  | ["vin", "close", i] => let s := d.srv.step (.clientClose i.toNat!); ({ d with srv := s }, showSrv s)
+  | ["vin", "exit", i] => let s := d.srv.step (.exitCmd i.toNat!); ({ d with srv := s }, showSrv s)
+  | ["vin", "stop"] => let s := d.srv.step .stop; ({ d with srv := s }, showSrv s)
+  | _ => (d, "bad")
+
+partial def loop (h out : IO.FS.Stream) (d : DState) : IO Unit := do
   let line ← h.getLine
   if line.isEmpty then return ()
-  let toks := line.trimAscii.toString.splitOn " "
-  match toks with
-  | ["table"] => loop h out []
-  | ["cmd", m, "method"] => loop h out (t ++ [{ member := m, target := .method [] }])
-  | ["cmd", m, "propro"] => loop h out (t ++ [{ member := m, target := .propRO }])
-  | ["cmd", m, "proprw", c] => loop h out (t ++ [{ member := m, target := .propRW (parseConv c) }])
-  | ["param", n, k, c, d] =>
-    let p : Param := { name := n, kind := parseKind k, conv := parseConv c, default := if d == "-" then "" else d }
-    let t' := match t.reverse with
-      | { member := m, target := .method ps } :: rest => (({ member := m, target := .method (ps ++ [p]) } : Cmd) :: rest).reverse
-      | _ => t
-    loop h out t'
-  | ["names"] =>
-    out.putStrLn (" ".intercalate (t.map Cmd.name)); loop h out t
-  | "flags" :: [m] =>
-    match t.find? (·.member == m) with
-    | some { target := .method ps, .. } =>
-      out.putStrLn (" ".intercalate ((assignFlags ps []).map fun pf => pf.1.name ++ ":" ++ (match pf.2 with | some c => c.toString | none => "-")))
-    | _ => out.putStrLn "-"
-    loop h out t
-  | "parse" :: rest =>
-    out.putStrLn (showParsed (parseLine t rest)); loop h out t
-  | _ => out.putStrLn "bad"; loop h out t
+  let line := String.ofList (line.toList.filter (· ≠ '\n'))
+  let (d', o) := handleLine d line
+  out.putStrLn o
+  loop h out d'
 
 def main : IO Unit := do
   let out ← IO.getStdout
-  loop (← IO.getStdin) out []
+  loop (← IO.getStdin) out {}
   out.flush
